@@ -8,8 +8,12 @@ that the models are accepted by the ONNX checker.
 
 from __future__ import annotations
 
+import zlib
+
 import numpy as np
 import onnx_ir as ir
+
+from iosim.tensors import LAYOUTS, relayout
 
 F = ir.DataType.FLOAT
 
@@ -32,6 +36,11 @@ def _tensor(rng, name, big=False):
         arr = (np.arange(600, dtype=np.float32) % 7).reshape(20, 30) + rng.randrange(3)
     else:
         arr = (np.arange(6, dtype=np.float32).reshape(2, 3) + rng.randrange(4)).astype(np.float32)
+    # the memory layout of the backing array varies with the name (no draw from the model stream); the logical
+    # content, and therefore every serialized byte, is the same in all layouts
+    h = zlib.crc32(name.encode())
+    if (h >> 8) % 10 < 3:
+        arr = relayout(arr, LAYOUTS[1 + h % (len(LAYOUTS) - 1)])
     return ir.Tensor(arr, name=name)
 
 
